@@ -56,7 +56,7 @@ MatchesMapping ==
 HasSkip == \E j \in 1..Len(hist) : hist[j][1] = "skip"
 EmitDone ==
   IF st \in {"ok", "err"} /\ (st = "ok" \/ Len(hist) <= 2)
-  THEN /\ PrintT("SCN " \o ToJson([sv |-> AsStruct, s |-> R3S(hasdef)]))
-       /\ (HasSkip \/ PrintT("SCN " \o ToJson([sv |-> AsMap(Len(hist) % 2 = 0), s |-> R3S(hasdef)])))
+  THEN /\ PrintT("SCN " \o ToJson([sv |-> AsStruct, s |-> R3S(hasdef), corpus |-> ""]))
+       /\ (HasSkip \/ PrintT("SCN " \o ToJson([sv |-> AsMap(Len(hist) % 2 = 0), s |-> R3S(hasdef), corpus |-> ""])))
   ELSE TRUE
 =============================================================================
